@@ -393,13 +393,92 @@ func c17WrongCidSub() *engine.Sub {
 	}
 }
 
+type c17SeqCase struct {
+	Format string `json:"format"`
+	A      []int  `json:"a"`
+	B      []int  `json:"b"`
+	Rounds int    `json:"rounds"`
+}
+
+// c17SeqSub: the bytes returned by a byte-slice writer belong to the caller: writing
+// another container afterwards must not change them.
+func c17SeqSub() *engine.Sub {
+	sets := [][]int{{0}, {1}, {0, 1}, {2, 3}, {0, 1, 2, 3}, {}}
+	return &engine.Sub{
+		Name:   "written-bytes-are-self-contained",
+		Serial: true,
+		Rule:   "histories: container A is written with the byte-slice writer, then a different container B is written (several rounds, also through the stream writer into a fresh buffer), then A's bytes are compared with a private copy taken right after the first write and read back: they must be unchanged and still hold exactly A's tokens (a returned slice must not alias a buffer that a later call reuses); non-trivial = all",
+		Bound:  func(string) string { return "4 formats x 30 ordered pairs of token sets x 8 rounds" },
+		Gen: func(tier string, emit func(any) bool) {
+			for _, f := range []string{"car", "car64", "cbor", "cbor64"} {
+				for i, a := range sets {
+					for j, b := range sets {
+						if i != j {
+							if !emit(&c17SeqCase{Format: f, A: a, B: b, Rounds: 8}) {
+								return
+							}
+						}
+					}
+				}
+			}
+		},
+		NewCase: func() any { return &c17SeqCase{} },
+		Run: func(ctx *engine.Ctx, c any) {
+			cs := c.(*c17SeqCase)
+			mk := func(idx []int) (container.Writer, []string) {
+				w := container.NewWriter()
+				var names []string
+				for _, i := range idx {
+					t := ioToken(c17Pool[i])
+					w.AddSealed(t.Cid, t.Sealed)
+					names = append(names, c17Pool[i])
+				}
+				return w, names
+			}
+			wa, na := mk(cs.A)
+			wb, _ := mk(cs.B)
+			ctx.States(1)
+			ctx.Nontrivial(1)
+			for round := 0; round < cs.Rounds; round++ {
+				a, err := writeContainer(wa, cs.Format, false)
+				ctx.Eval(1)
+				if err != nil {
+					ctx.Failf(cs, "write-fails/"+cs.Format, "writing fails: %v", err)
+					return
+				}
+				keep := append([]byte{}, a...)
+				for k := 0; k < 3; k++ {
+					if _, err := writeContainer(wb, cs.Format, k == 1); err != nil {
+						ctx.Failf(cs, "write-fails/"+cs.Format, "writing fails: %v", err)
+						return
+					}
+					ctx.Eval(1)
+					ctx.Trans(1)
+				}
+				if !bytes.Equal(a, keep) {
+					ctx.Outcome("returned-bytes-changed")
+					ctx.Failf(cs, "returned-bytes-overwritten-by-later-write/"+cs.Format, "the bytes returned for container %v changed after container %v was written (%s, round %d)", cs.A, cs.B, cs.Format, round)
+					return
+				}
+				r, err := readContainer(a, cs.Format, false)
+				if err != nil || containerView(r) != expectedSetView(na) {
+					ctx.Outcome("readback-differs")
+					ctx.Failf(cs, "written-container-unreadable-after-later-write/"+cs.Format, "container %v written before %v no longer reads back as itself (%s): %v", cs.A, cs.B, cs.Format, err)
+					return
+				}
+			}
+			ctx.Outcome("self-contained")
+		},
+	}
+}
+
 var _ = base64.StdEncoding
 
 func C17() *engine.Check {
 	return &engine.Check{
 		Property: "C17",
 		Level:    "model_checking",
-		Subs:     []*engine.Sub{c17RoundtripSub(), c17CorruptSub(), c17WrongCidSub()},
+		Subs:     []*engine.Sub{c17RoundtripSub(), c17CorruptSub(), c17WrongCidSub(), c17SeqSub()},
 		Assumptions: []string{
 			"token pool of 4 sealed tokens (3 signature algorithms); 'every finite set' is covered for sets of up to 4 tokens",
 			"the CBOR container format does not store CIDs, so a wrong CID given to AddSealed is invisible there; only CAR readers can and must detect a CID that does not hash to the data",
